@@ -266,6 +266,32 @@ theorem isRemoteLogin_or (op : Op) :
 
 theorem addConn_rem (c : Conn) (b : Node) : (b.addConn c).rem = b.rem := rfl
 
+/-- the remote sessions of node `y` after a remote login towards `y'` that was accepted by the target -/
+theorem opRemoteLogin_rem (n : Net) (x y' : Nat) (u p : String) (y : Nat) (b a : Node)
+    (hb : n.node y = some b) (ha : (opRemoteLogin n x y' u p).1.node y = some a)
+    (h0 : ((opRemoteLogin n x y' u p).1 = afterLogin n x y' u ∧ canDeliver (afterLogin n x y' u) y' x = false ∧
+          (opRemoteLogin n x y' u p).2 = .failure) ∨
+       ((opRemoteLogin n x y' u p).1 = (afterLogin n x y' u).upd x (Node.addConn ⟨n.nextId, some y'⟩) ∧
+          canDeliver (afterLogin n x y' u) y' x = true ∧ (opRemoteLogin n x y' u p).2 = .success)) :
+    a.rem = if y' = y then b.rem ++ [⟨n.nextId, u, n.time, x⟩] else b.rem := by
+  rcases h0 with ⟨h0, _⟩ | ⟨h0, _⟩ <;> rw [h0] at ha
+  · simp only [afterLogin, node_bump, node_upd] at ha
+    split at ha
+    · rename_i h; subst h; rw [hb] at ha; simp only [Option.map_some, Option.some.injEq] at ha
+      subst ha; simp [Node.addConn, Node.addSession]
+    · rename_i h; rw [hb] at ha; cases ha; simp [h]
+  · simp only [afterLogin, node_bump, node_upd] at ha
+    by_cases h : y' = y
+    · subst h
+      simp only [if_true, hb, Option.map_some] at ha
+      split at ha
+      · simp only [Option.some.injEq] at ha; subst ha; simp [Node.addConn, Node.addSession]
+      · simp only [Option.some.injEq] at ha; subst ha; simp [Node.addConn, Node.addSession]
+    · simp only [h, if_false, hb] at ha
+      split at ha
+      · simp only [Option.map_some, Option.some.injEq] at ha; subst ha; simp [Node.addConn, h]
+      · simp only [Option.some.injEq] at ha; subst ha; simp [h]
+
 /-- **C16, logins (remote), "only if".** If after any operation node `y` holds a remote session whose id it did not hold
 before, then the operation was a remote login towards `y` from a powered-on node `x` over an open path, with the current
 password of an existing, enabled account of `y`, `y` ON with both managers RUNNING, and fewer than `max_remote_sessions`
@@ -282,24 +308,7 @@ theorem C16_remote_session_only_by_valid_login (n : Net) (op : Op) (y : Nat) (b 
   · simp only [step] at ha
     rcases opRemoteLogin_cases n x y' u p with ⟨h0, _⟩ | ⟨c, b', hc, hcon, hdel, hb', hok, hlt, h0⟩
     · rw [h0, hb] at ha; cases ha; exact (hnew (List.mem_map_of_mem hs)).elim
-    · have hrem : a.rem = if y' = y then b.rem ++ [⟨n.nextId, u, n.time, x⟩] else b.rem := by
-        rcases h0 with ⟨h0, _⟩ | ⟨h0, _⟩ <;> rw [h0] at ha
-        · simp only [afterLogin, node_bump, node_upd] at ha
-          split at ha
-          · rename_i h; subst h; rw [hb] at ha; simp only [Option.map_some, Option.some.injEq] at ha
-            subst ha; simp [Node.addConn, Node.addSession]
-          · rename_i h; rw [hb] at ha; cases ha; simp [h]
-        · simp only [afterLogin, node_bump, node_upd] at ha
-          by_cases h : y' = y
-          · subst h
-            simp only [if_true, hb, Option.map_some] at ha
-            split at ha
-            · simp only [Option.some.injEq] at ha; subst ha; simp [Node.addConn, Node.addSession]
-            · simp only [Option.some.injEq] at ha; subst ha; simp [Node.addConn, Node.addSession]
-          · simp only [h, if_false, hb] at ha
-            split at ha
-            · simp only [Option.map_some, Option.some.injEq] at ha; subst ha; simp [Node.addConn, h]
-            · simp only [Option.some.injEq] at ha; subst ha; simp [h]
+    · have hrem := opRemoteLogin_rem n x y' u p y b a hb ha h0
       by_cases h : y' = y
       · subst h
         rw [hb] at hb'; cases hb'
@@ -430,6 +439,118 @@ theorem C16_command_on_ended_session_changes_nothing (ops : List Op) (n : Net) (
       have := arr.dst; rw [h1] at this; cases this
       rw [hcid, hd] at hs; cases hs
     · rw [h]; simp
+
+
+/-! ### a login succeeds exactly when it should -/
+
+/-- **C16, logins (remote), both directions.** The remote-login request of node `x` towards `y` is answered `success`
+iff `x` is ON, frames pass in both directions (NICs enabled, both terminals RUNNING, `x ≠ y`), `y` is ON with both managers
+RUNNING, the account exists, is enabled, the password is its current one, and fewer than `max_remote_sessions` sessions are
+open on `y`.  ("Only if" = no login without valid credentials; "if" = every such attempt on an unblocked path succeeds.) -/
+theorem C16_remote_login_ok_iff (n : Net) (x y : Nat) (u p : String) :
+    (step n (.remoteLogin x y u p)).2 = .success ↔
+      ∃ a b, n.node x = some a ∧ n.node y = some b ∧ a.isOn = true ∧ canDeliver n x y = true ∧ canDeliver n y x = true ∧
+        AuthOK b u p ∧ b.rem.length < b.maxRemote := by
+  simp only [step]
+  constructor
+  · intro h
+    rcases opRemoteLogin_cases n x y u p with ⟨_, h0⟩ | ⟨a, b, ha, hon, hdel, hb, hok, hlt, ⟨_, _, h0⟩ | ⟨_, hback, _⟩⟩
+    · exact (h0 h).elim
+    · rw [h0] at h; cases h
+    · rw [canDeliver_afterLogin] at hback
+      exact ⟨a, b, ha, hb, hon, hdel, hback, (loginOk_iff _ _ _).mp hok, hlt⟩
+  · rintro ⟨a, b, ha, hb, hon, hdel, hback, hauth, hlt⟩
+    have hok := (loginOk_iff _ _ _).mpr hauth
+    rcases opRemoteLogin_cases n x y u p with ⟨h0, _⟩ | ⟨_, _, _, _, _, _, _, _, ⟨_, hno, _⟩ | ⟨_, _, h0⟩⟩
+    · -- the operation cannot have been refused: unfold it under the hypotheses
+      exfalso
+      have : (opRemoteLogin n x y u p).1.nextId = n.nextId + 1 := by
+        unfold opRemoteLogin
+        simp only [ha, hb, hon, hdel, hok, hlt, Bool.not_true, Bool.false_eq_true, if_false, decide_true, Bool.and_self, if_true]
+        split <;> simp
+      rw [h0] at this; omega
+    · rw [canDeliver_afterLogin, hback] at hno; cases hno
+    · exact h0
+
+/-- **C16, logins (local), both directions.** -/
+theorem C16_local_login_ok_iff (n : Net) (y : Nat) (u p : String) :
+    (step n (.localLogin y u p)).2 = .success ↔ ∃ b, n.node y = some b ∧ AuthOK b u p := by
+  simp only [step, opLocalLogin]
+  cases hb : n.node y with
+  | none => simp
+  | some b =>
+    simp only [localLogin, hb]
+    cases hok : b.loginOk u p with
+    | true => simp [boolOut, (loginOk_iff b u p).mp hok]
+    | false =>
+      simp only [Bool.false_eq_true, if_false, Option.isSome_none, boolOut]
+      constructor
+      · intro h; cases h
+      · rintro ⟨b', hb', hauth⟩; cases hb'; rw [(loginOk_iff _ _ _).mpr hauth] at hok; cases hok
+
+/-! ### the session limit -/
+
+/-- session parameters are never changed by any operation -/
+def KeepParams : Nat → Node → Node → Prop := fun _ a b =>
+  b.maxRemote = a.maxRemote ∧ b.localTimeout = a.localTimeout ∧ b.remoteTimeout = a.remoteTimeout
+
+theorem keepParams_frame : Frame KeepParams :=
+  { refl := fun _ _ => ⟨rfl, rfl, rfl⟩,
+    trans := fun _ _ _ _ h1 h2 => ⟨h2.1.trans h1.1, h2.2.1.trans h1.2.1, h2.2.2.trans h1.2.2⟩,
+    shr := fun _ _ _ h => ⟨h.maxRemote, h.localTimeout, h.remoteTimeout⟩,
+    data := fun _ _ _ h => ⟨data_maxRemote h, data_localTimeout h, data_remoteTimeout h⟩ }
+
+theorem step_keepParams (n : Net) (op : Op) : Net.Rel KeepParams n (step n op).1 := by
+  refine keepParams_frame.step n op (fun _ _ _ => ⟨rfl, rfl, rfl⟩) (fun _ _ _ => ⟨rfl, rfl, rfl⟩) (fun _ _ _ _ => ⟨rfl, rfl, rfl⟩)
+    (fun _ _ _ => ⟨rfl, rfl, rfl⟩) (fun _ _ _ => ⟨rfl, rfl, rfl⟩) (fun _ _ _ => ⟨rfl, rfl, rfl⟩) ?_ ?_
+  · intro _ a k; unfold Node.localExec Node.exec
+    split
+    · split <;> exact ⟨rfl, rfl, rfl⟩
+    · exact ⟨rfl, rfl, rfl⟩
+  · intro _ a cid t k; unfold Node.remoteExec Node.exec
+    split <;> exact ⟨rfl, rfl, rfl⟩
+
+/-- no node holds more remote sessions than its `max_remote_sessions` -/
+def WithinLimit (n : Net) : Prop := ∀ y b, n.node y = some b → b.rem.length ≤ b.maxRemote
+
+/-- **C16, limit (invariant).** -/
+theorem C16_limit_step (n : Net) (op : Op) (h : WithinLimit n) : WithinLimit (step n op).1 := by
+  intro y a ha
+  obtain ⟨b, hb, hab⟩ := Net.Rel.back_of_len (step_keepParams n op) ha
+  have hmax : a.maxRemote = b.maxRemote := hab.1
+  rcases isRemoteLogin_or op with hop | ⟨x, y', u, p, rfl⟩
+  · obtain ⟨a', ha', hsub⟩ := (step_remShrink n op hop).node y b hb
+    rw [ha] at ha'; cases ha'
+    have := hsub.length_le
+    simp only [List.length_map] at this
+    have := h y b hb
+    omega
+  · simp only [step] at ha
+    rcases opRemoteLogin_cases n x y' u p with ⟨h0, _⟩ | ⟨_, b', _, _, _, hb', _, hlt, h0⟩
+    · rw [h0, hb] at ha; cases ha; exact hmax ▸ h y _ hb
+    · have hrem := opRemoteLogin_rem n x y' u p y b a hb ha h0
+      by_cases hy : y' = y
+      · subst hy; rw [hb] at hb'; cases hb'
+        simp only [if_true] at hrem
+        rw [hrem, List.length_append, List.length_singleton]; omega
+      · simp only [hy, if_false] at hrem
+        rw [hrem]; have := h y b hb; omega
+
+theorem C16_limit_run (ops : List Op) (n : Net) (h : WithinLimit n) : WithinLimit (run n ops) := by
+  induction ops generalizing n with
+  | nil => exact h
+  | cons op ops ih => exact ih _ (C16_limit_step n op h)
+
+/-- **C16, limit (boundary).** With `max_remote_sessions` sessions open on `y`, a further remote login towards `y` is
+refused whatever the credentials, and changes nothing; by `C16_remote_login_ok_iff` it succeeds again as soon as one
+session has ended (`rem.length < maxRemote`). -/
+theorem C16_limit_boundary (n : Net) (x y : Nat) (u p : String) (b : Node) (hb : n.node y = some b)
+    (hfull : b.maxRemote ≤ b.rem.length) :
+    (step n (.remoteLogin x y u p)).2 ≠ .success ∧ (step n (.remoteLogin x y u p)).1 = n := by
+  simp only [step]
+  rcases opRemoteLogin_cases n x y u p with ⟨h0, h1⟩ | ⟨_, b', _, _, _, hb', _, hlt, _⟩
+  · exact ⟨h1, h0⟩
+  · rw [hb] at hb'; cases hb'; omega
 
 
 end Primaite.Session
